@@ -320,7 +320,8 @@ func init() {
 		if fd := funcDecl("File", "copySheet"); fd != nil {
 			body := src(fd.Body)
 			if !strings.Contains(body, "rel.Type != SourceRelationshipDrawingML && rel.Type != SourceRelationshipTable") ||
-				!strings.Contains(body, "f.relsReader(fromRels)") || !strings.Contains(body, "f.Relationships.Store(toRels, copied)") {
+				!strings.Contains(body, "f.relsReader(fromRels)") || !strings.Contains(body, "f.Relationships.Store(toRels, copied)") ||
+				!strings.Contains(body, "f.deleteCalcChain(f.getSheetID(f.GetSheetName(to)), \"\")") {
 				fail("copySheet: relationship copy skeleton (relsReader(fromRels), filter drawing/table, Store(toRels, copied))")
 			}
 		} else {
@@ -352,6 +353,13 @@ func init() {
 		}
 		if ccFilter == "" {
 			fail("deleteCalcChain: filter function literal")
+		}
+		if fd := funcDecl("File", "deleteCalcChain"); fd != nil && !strings.Contains(src(fd.Body), "rels.Relationships[k].Type == SourceRelationshipCalcChain") {
+			fail("deleteCalcChain: removal of the workbook calcChain relationship with the part")
+		}
+		if fd := funcDecl("File", "deleteSlicerCache"); fd == nil || !strings.Contains(src(fd.Body), "f.deleteWorkbookRels(SourceRelationshipSlicerCache") ||
+			!strings.Contains(src(fd.Body), "f.deleteWorkbookSlicerCache(rID)") {
+			fail("deleteSlicerCache: removal of the workbook relationship and slicer cache entry")
 		}
 		fmt.Fprintf(w, "def deleteCalcChainFilter : String := %s\n", leanStr(ccFilter))
 		// adjustCalcChain: entries AT the edit position move with their cells (`<=`)
